@@ -201,3 +201,22 @@ WB("C08", "bitword/bitword.go", "func (w *bitWord) FromStrs(strs []string) [][]b
 WB("C16", "sigbits/firstdiff.go", "func FirstDiffBits(keys []string) []int32 {", "keys", '""')
 WB("C16", "sigbits/sigbits.go", "func New(keys []string) *SigBits {", "keys", '""')
 WB("C17", "sigbits/sharding.go", "func ShardByPrefix(keys []string, maxSize int32) ([]int32, []int32) {", "keys", '""')
+
+# ---- LZ: a package table that is no longer filled in init() but lazily by ONE family of functions only; every other
+# function that reads the table answers wrongly when it is called first in a process (cold-order processes, 2.9b)
+_lz_masks = [
+    ("bitmap/bitmap.go", "func init() {\n\tinitMasks()\n\tinitSelectLookup()\n}", "func init() {\n\tinitSelectLookup()\n}"),
+    ("bitmap/rank.go", "import (\n\t\"math/bits\"\n)\n", "import (\n\t\"math/bits\"\n\t\"sync\"\n)\n\nvar masksOnce sync.Once\n"),
+    ("bitmap/rank.go", "func IndexRank64(words []uint64, opts ...bool) []int32 {\n", "func IndexRank64(words []uint64, opts ...bool) []int32 {\n\tmasksOnce.Do(initMasks)\n"),
+    ("bitmap/rank.go", "func IndexRank128(words []uint64) []int32 {\n", "func IndexRank128(words []uint64) []int32 {\n\tmasksOnce.Do(initMasks)\n"),
+]
+MUTANTS.append(dict(prop="C01", name="C01-lz-masks-built-by-index-builders-only", edits=_lz_masks))
+MUTANTS.append(dict(prop="C14", name="C14-lz-masks-built-by-index-builders-only", edits=_lz_masks))
+MUTANTS.append(dict(prop="C13", name="C13-lz-masks-built-by-index-builders-only", edits=_lz_masks))
+_lz_sel = [
+    ("bitmap/bitmap.go", "func init() {\n\tinitMasks()\n\tinitSelectLookup()\n}", "func init() {\n\tinitMasks()\n}"),
+    ("bitmap/select.go", "import (\n\t\"fmt\"\n\t\"math/bits\"\n)\n", "import (\n\t\"fmt\"\n\t\"math/bits\"\n\t\"sync\"\n)\n\nvar selOnce sync.Once\n"),
+    ("bitmap/select.go", "func IndexSelect32(words []uint64) []int32 {\n", "func IndexSelect32(words []uint64) []int32 {\n\tselOnce.Do(initSelectLookup)\n"),
+    ("bitmap/select.go", "func IndexSelect32R64(words []uint64) ([]int32, []int32) {\n", "func IndexSelect32R64(words []uint64) ([]int32, []int32) {\n\tselOnce.Do(initSelectLookup)\n"),
+]
+MUTANTS.append(dict(prop="C02", name="C02-lz-select-lookup-built-by-index-builders-only", edits=_lz_sel))
